@@ -248,7 +248,8 @@ def coq_make(targets=None, timeout=3000):
     """Full .vo build (never -vos). targets: list of .vo paths relative to coq/, or None for all."""
     with GlobalLock("coq"):
         coq_prepare()
-        cmd = ["make", "-j%d" % NCPU] + (targets or [])
+        # every coqc runs under a 24 GB address-space limit: a diverging tactic must not take the machine down
+        cmd = "ulimit -v 25000000; make -j%d %s" % (NCPU, " ".join(targets or []))
         t0 = time.time()
         rc, o, e = sh(cmd, timeout=timeout, cwd=COQ)
         return rc == 0, o + "\n" + e, time.time() - t0
